@@ -101,3 +101,15 @@ PROPS["C07"] = {
                     {"checks": 400, "shards": 16, "gomaxprocs": [1, 2, 4, 16], "env": {"C07_MAXN": 3000}})],
     }],
 }
+
+PROPS["C08"] = {
+    "level": "exploration",
+    "assumptions": ["schedules are sampled (worker counts 1..1000, latency classes, GOMAXPROCS per shard, race detector), not enumerated",
+                    "error records are observed at the Logger.Error call (the line zap writes to stderr is one call later)",
+                    "the output writer is an in-memory buffer; a writer slower than the exit delay is outside the statement"],
+    "units": [{
+        "pkg": "command", "race": True,
+        "tests": [T("TestC08Engine", {"checks": 25, "shards": 12, "gomaxprocs": [1, 2, 4, 16], "env": {"C08_MAXN": 4500}},
+                    {"checks": 250, "shards": 16, "gomaxprocs": [1, 2, 4, 16], "env": {"C08_MAXN": 5000}})],
+    }],
+}
